@@ -141,6 +141,8 @@ def trace_step(S, run, with_store=True):
 
 
 _sim_cache = {}
+from ..regions import CASE_CACHES as _CC
+_CC.append(_sim_cache)
 
 
 def stepped_sim(S, cfg, with_store=True):
@@ -220,15 +222,38 @@ def _worker(args):
     from ..report import Report
     from ..values import Unsupported
     mod = importlib.import_module(modname)
-    S = Session(repo, real_t)
-    rep = Report("_", "other")
-    try:
+    from ..regions import Threshold, run_under_size_cases
+    files, stencils = set(), set()
+
+    def one(case):
+        S = Session(repo, real_t)
+        rep = Report("_", "other")
         getattr(mod, fname)(S, item, rep, *extra)
+        files.update(S.I.files_read)
+        stencils.update((sd.module, sd.lineno) for sd in S.I.stencils)
+        return rep
+    try:
+        done = run_under_size_cases(one, getattr(mod, "CASE_SPLIT", False))
     except Unsupported as ex:
         return {"error": "%s (while analysing %r)" % (ex, item)}
-    from ..regions import Threshold
-    return {"obligations": rep.obligations, "samples": rep.samples, "files": sorted(S.I.files_read),
-            "threshold": str(Threshold.value), "stencils": sorted({(sd.module, sd.lineno) for sd in S.I.stencils})}
+    obligations, samples = [], []
+    for case, rep in done:
+        tag_case(rep.obligations, case)
+        obligations.extend(rep.obligations)
+        samples.extend(rep.samples)
+    return {"obligations": obligations, "samples": samples, "files": sorted(files), "cases": [c.label() for c, _ in done if c.label()],
+            "threshold": str(Threshold.value), "stencils": sorted(stencils)}
+
+
+def tag_case(obligations, case):
+    """obligations decided under a size-ordering case carry the case in their instance and key"""
+    lab = case.label()
+    if not lab:
+        return
+    for o in obligations:
+        o["instance"] = "%s [grid sizes with %s]" % (o["instance"], lab)
+        if "key" in o:
+            o["key"] = "%s|case:%s" % (o["key"], lab)
 
 
 def parallel_over(S, rep, modname, fname, items, extra=(), jobs=None):
@@ -256,4 +281,13 @@ def parallel_over(S, rep, modname, fname, items, extra=(), jobs=None):
                 rep.samples.append(s)
         S.I.files_read.update(r["files"])
         stencils.update(tuple(x) for x in r["stencils"])
+        if r.get("cases"):
+            rep.analysed.setdefault("size_cases", [])
+            for c in r["cases"]:
+                if c not in rep.analysed["size_cases"]:
+                    rep.analysed["size_cases"].append(c)
+        from ..regions import Threshold
+        from fractions import Fraction
+        if Fraction(r["threshold"]) > Threshold.value:
+            Threshold.value = Fraction(r["threshold"])
     return stencils
